@@ -14,7 +14,11 @@ ff2_plus_adjoint secondOrderEntry_plus_adjoint
 secondOrderFF_entry secondOrderFF_plus_adjoint_of_segments secondOrderStep_plus_adjoint
 secondOrderFF_plus_adjoint secondOrderFFFromScratch_plus_adjoint'''.split() + [
     'FFVerif.C07.cleanup_freq', 'FFVerif.C07.getFF_spec', 'FFVerif.C07.served_value_is_fresh']
-LEAN_MODULES = ['FFVerif.Props.C10', 'FFVerif.Props.C10Asm', 'FFVerif.Props.C07', 'FFVerif.Props.C10Shifts']
+LEAN_MODULES = ['FFVerif.Props.C10', 'FFVerif.Props.C10Asm', 'FFVerif.Props.C07', 'FFVerif.Props.C10Shifts',
+                'FFVerif.Props.C10Unique']
+# module C10Unique: the second-order filter function does not depend on which eigh output is used
+THEOREMS = THEOREMS + [
+    'FFVerif.C10.so_segment_eigh_independent', 'FFVerif.C10.secondOrderFF_eigh_independent']
 # module C10Shifts: calculate_frequency_shifts (model Shifts) = trapezoid of S x F2 / 2 pi for the three spectrum
 # shapes, depends only on the F2 values (reuse of intermediates), basis change, Hermitian part = decay amplitudes
 THEOREMS = THEOREMS + [
